@@ -287,8 +287,16 @@ class Ctx:
                 reported += 1
                 exit_code = 1
         wall = time.time() - self.t0
-        n_ob = len(self.obligations)
-        n_ok = sum(1 for o in self.obligations if o['ok'])
+        # an obligation that failed ONLY because of a listed known finding (the violation that explains it was matched above) is not an
+        # obligation of this run: it is reported on the KNOWN-FINDING line and in `known_findings_seen`, and kept out of the counts so that
+        # a proof-level record of a quiet run has discharged == obligations
+        explained_by_known = set()
+        if exit_code == 0 and failed:
+            explained = {v.get('replay', {}).get('explains') for v in self.violations if isinstance(v.get('replay'), dict)}
+            explained_by_known = {o['name'] for o in failed if o['name'] in explained}
+        counted = [o for o in self.obligations if o['name'] not in explained_by_known]
+        n_ob = len(counted)
+        n_ok = sum(1 for o in counted if o['ok'])
         ev = {
             'property_id': self.pid,
             'tier': self.tier,
@@ -304,9 +312,10 @@ class Ctx:
                 'distinct_nontrivial': len(self.distinct),
                 'rule': ' | '.join(self.rules),
                 'samples': self.samples[:12] or ['(no correspondence cases in this run)'],
-                'failed_obligations': [o['name'] for o in failed],
-                'obligation_kinds': {k: sum(1 for o in self.obligations if o['kind'] == k)
-                                     for k in sorted({o['kind'] for o in self.obligations})},
+                'failed_obligations': [o['name'] for o in failed if o['name'] not in explained_by_known],
+                'obligations_explained_by_known_findings': sorted(explained_by_known),
+                'obligation_kinds': {k: sum(1 for o in counted if o['kind'] == k)
+                                     for k in sorted({o['kind'] for o in counted})},
                 'known_findings_seen': sorted(seen_known),
                 **self.extra,
             },
